@@ -19,21 +19,30 @@
    lists, so C05_format_preserves and C05_format_idempotent hold for EVERY text that parses,
    with no side condition.
 
-   DOCUMENTED GRAMMAR ACCEPTED: C05_grammar_accepted_partial covers these constructs of
-   doc/syntax.md (Model/DocGrammar.v, where every transcription choice is listed):
-   ledger-file structure, vertical-space (sp* new-line), new-line including <EOF> for the last
-   line, top-level comments (all five prefixes, blocks of lines), include, apply tag (key,
-   key: value, key:: expr), end apply tag, account and commodity declarations with note /
-   alias / comment sub-directives, LF and CRLF line ends, any Unicode text in names and
-   comments.  NOT covered by the acceptance theorem (checked by the correspondence run only, on
-   texts produced by the grammar generator of harness/src/pgen.rs): transaction, posting,
-   metadata, value expressions, lot / cost / balance assertion written with arbitrary
-   horizontal white space (their printed, canonical forms ARE accepted: that is the round
-   trip). *)
+   DOCUMENTED GRAMMAR ACCEPTED: C05_grammar_accepted_txn_partial covers every construct of
+   doc/syntax.md (Model/DocGrammar.v and Model/DocGrammarTxn.v, where every transcription choice
+   is listed): ledger-file structure, vertical-space (sp* new-line), new-line including <EOF> for
+   the last line, LF and CRLF line ends, top-level comments (all five prefixes, blocks of lines),
+   include, apply tag (key, key: value, key:: expr), end apply tag, account and commodity
+   declarations with note / alias / comment sub-directives, any Unicode text in names and
+   comments, and transactions: header (date with either separator, effective date, clear mark,
+   code, payee), metadata lines (tag words, key: value, comment), postings (indent, clear mark,
+   account, "  " or tab, value expression with arbitrary sp*: parentheses up to 100 deep, + - * /,
+   unary minus, amount = documented decimal that fits 96 bits / 28 places with optional
+   commodity; lot price / date / note in any order, cost @ / @@, balance assertion).
+   (C05_grammar_accepted_partial is the earlier theorem without transactions; it is implied.)
+   Still NOT covered by the acceptance theorem (hence `_partial`): metadata written on the same
+   line as a posting or as the transaction header (`posting-line metadata? new-line`), and
+   `commodity-format`, which the doc names but never defines.  Documented texts that the parser
+   rejects, each excluded from the grammar by a listed choice with a vm_compute witness in
+   Proofs/DocAcceptTxn.v (the finding_ examples): an account of Unicode white space only, a comment like
+   `:a: hello`, an account that starts with * or ! without a mark, a payee that starts with (
+   without a code when a ) follows later, a day that does not exist, a number over 96 bits,
+   parentheses more than 100 deep (F7). *)
 From Coq Require Import List NArith.
 From Okv Require Import Model.Lit Model.Syntax Model.Comb Model.ParseExpr Model.ParseMeta Model.ParsePosting
   Model.ParseTxn Model.ParseLedger Model.Display Model.DocGrammar Model.RoundTripSpec
-  Proofs.DocAccept Proofs.RoundTripNum Proofs.RoundTripExpr Proofs.RoundTripLot Proofs.RoundTripMeta
+  Model.DocGrammarTxn Proofs.DocAccept Proofs.DocAcceptTxn Proofs.RoundTripNum Proofs.RoundTripExpr Proofs.RoundTripLot Proofs.RoundTripMeta
   Proofs.RoundTripPosting Proofs.RoundTripTxn Proofs.RoundTripDirective Proofs.RoundTripSame
   Proofs.RoundTripLedger Proofs.RoundTripImage.
 Import ListNotations.
@@ -42,6 +51,16 @@ Theorem C05_grammar_accepted_partial : forall s : list N,
   In_doc_grammar s -> exists es, parse_ledger s = LOk es.
 Proof. exact doc_grammar_accepted. Qed.
 Print Assumptions C05_grammar_accepted_partial.
+
+(* the documented grammar with transactions *)
+Theorem C05_grammar_accepted_txn_partial : forall s : list N,
+  In_doc_grammar_txn s -> exists es, parse_ledger s = LOk es.
+Proof. exact doc_grammar_txn_accepted. Qed.
+Print Assumptions C05_grammar_accepted_txn_partial.
+
+Theorem C05_grammar_txn_extends : forall s : list N, In_doc_grammar s -> In_doc_grammar_txn s.
+Proof. exact In_doc_grammar_txn_extends. Qed.
+Print Assumptions C05_grammar_txn_extends.
 
 (* ---- the round trip, construct by construct ---- *)
 Theorem C05_rt_number : forall d k, wf_num d = true -> starts_not is_decimal_char k ->
